@@ -63,6 +63,7 @@ type Contract struct {
 	Allocates bool
 	Each      []string // lemma parameters ranging over all declared constants of their type
 	UseBody   []string // callees whose bodies are executed in this unit instead of their contracts
+	Preserves []Clause // locations inside the modifies set that are nevertheless unchanged
 	Uses      []string // lemmas whose (spec-level) statements are assumed, quantified over their parameters
 	Hide      []string // package-level variables whose contents are hidden in this unit (known only through `uses` lemmas)
 }
@@ -78,6 +79,7 @@ type GhostUpd struct {
 	Callee string
 	Delta  Clause
 	When   *Clause
+	After  bool // evaluated after the call; $r0, $r1, ... denote its results
 }
 
 // ---------------- tokenizer ----------------
@@ -113,8 +115,8 @@ func tokenize(src string) ([]tok, error) {
 			}
 			out = append(out, tok{k: "num", s: src[i:j], n: n})
 			i = j
-		case isAlpha(c):
-			j := i
+		case isAlpha(c) || c == '$':
+			j := i + 1
 			for j < len(src) && (isAlnum(src[j]) || src[j] == '_' || src[j] == '$') {
 				j++
 			}
@@ -428,7 +430,7 @@ func stripSpecPrefix(line string) (string, bool) {
 
 var clauseKeywords = map[string]bool{"requires": true, "ensures": true, "modifies": true, "loop": true, "inline": true,
 	"opaque": true, "trusted": true, "abstract": true, "func": true, "lemma": true, "pure": true, "assert": true,
-	"bounded": true, "ghost": true, "noframe": true, "allocates": true, "each": true, "usebody": true, "uses": true, "hide": true}
+	"bounded": true, "ghost": true, "noframe": true, "allocates": true, "each": true, "usebody": true, "uses": true, "hide": true, "preserves": true}
 
 // ParseContracts scans a Go source file for //@ blocks.
 func ParseContracts(fset *token.FileSet, filename string, src []byte, cs *ContractSet) error {
@@ -548,6 +550,14 @@ func ParseContracts(fset *token.FileSet, filename string, src []byte, cs *Contra
 				cur.NoFrame = true
 			case "each":
 				cur.Each = append(cur.Each, strings.Fields(strings.ReplaceAll(rest, ",", " "))...)
+			case "preserves":
+				for _, part := range splitTopLevel(rest) {
+					c, err := mkClause(part)
+					if err != nil {
+						return err
+					}
+					cur.Preserves = append(cur.Preserves, c)
+				}
 			case "uses":
 				cur.Uses = append(cur.Uses, strings.Fields(strings.ReplaceAll(rest, ",", " "))...)
 			case "hide":
@@ -651,14 +661,21 @@ func ParseContracts(fset *token.FileSet, filename string, src []byte, cs *Contra
 				name := strings.TrimSpace(m[0])
 				r := m[1]
 				at := strings.Index(r, " at call ")
+				after := false
+				sepLen := len(" at call ")
 				if at < 0 {
-					return fmt.Errorf("%s: ghost clause needs 'at call'", where)
+					at = strings.Index(r, " after call ")
+					after = true
+					sepLen = len(" after call ")
+				}
+				if at < 0 {
+					return fmt.Errorf("%s: ghost clause needs 'at call' or 'after call'", where)
 				}
 				delta, err := mkClause(strings.TrimSpace(r[:at]))
 				if err != nil {
 					return err
 				}
-				tail := strings.TrimSpace(r[at+len(" at call "):])
+				tail := strings.TrimSpace(r[at+sepLen:])
 				var when *Clause
 				callee := tail
 				if w := strings.Index(tail, " when "); w >= 0 {
@@ -669,7 +686,7 @@ func ParseContracts(fset *token.FileSet, filename string, src []byte, cs *Contra
 					}
 					when = &c
 				}
-				cur.Ghost = append(cur.Ghost, GhostUpd{Name: name, Callee: callee, Delta: delta, When: when})
+				cur.Ghost = append(cur.Ghost, GhostUpd{Name: name, Callee: callee, Delta: delta, When: when, After: after})
 			default:
 				return fmt.Errorf("%s: unknown clause keyword %q", where, kw)
 			}
